@@ -124,6 +124,8 @@ type c17MgrRun struct {
 	announced  map[int]map[int]bool
 	confirmed  map[int]bool
 	unstable   bool
+	aborted    bool
+	executed   []c17MOp
 }
 
 var c17Host host.Host
@@ -163,8 +165,8 @@ func c17NewMgrRun(t *testing.T, r *zv.Run, seq c17MSeq) *c17MgrRun {
 		t.Fatal(err)
 	}
 	x := &c17MgrRun{r: r, seq: seq, m: m, mock: clock.NewMock(), self: c17Host.ID(), clocks: map[*pool]bool{},
-		hsub: &c17HeaderSub{ch: make(chan *header.ExtendedHeader), ready: make(chan struct{})},
-		esub: &c17EvSub{out: make(chan interface{})},
+		hsub:    &c17HeaderSub{ch: make(chan *header.ExtendedHeader), ready: make(chan struct{})},
+		esub:    &c17EvSub{out: make(chan interface{})},
 		blocked: map[int]bool{}, discovered: map[int]bool{}, announced: map[int]map[int]bool{}, confirmed: map[int]bool{}}
 	ctx, cancel := context.WithCancel(context.Background())
 	x.cancel = cancel
@@ -200,7 +202,12 @@ func (x *c17MgrRun) injectClocks() {
 
 func (x *c17MgrRun) quiesce() { c17Quiesce(x.r, 0, &x.unstable) }
 
-func (x *c17MgrRun) violation(sig, desc string) { x.r.Violation(sig, desc, x.seq) }
+func (x *c17MgrRun) violation(sig, desc string) {
+	rep := x.seq
+	rep.Ops = append([]c17MOp{}, x.executed...)
+	x.r.Violation(sig, desc, rep)
+	x.aborted = true
+}
 
 func (x *c17MgrRun) nodesList() []peer.ID {
 	x.m.nodes.m.RLock()
@@ -226,12 +233,13 @@ func (x *c17MgrRun) newNodes(before []peer.ID) []int {
 
 // apply runs one manager event; a panic inside the manager is a violation and ends the sequence (false).
 func (x *c17MgrRun) apply(op c17MOp) bool {
+	x.executed = append(x.executed, op)
 	if pn := zv.Recover(func() { x.apply1(op) }); pn != "" {
 		x.violation("manager-panic:"+op.Op, fmt.Sprintf("%s panicked: %s", op.Op, pn))
 		x.unstable = true
 		return false
 	}
-	return true
+	return !x.aborted
 }
 
 func (x *c17MgrRun) apply1(op c17MOp) {
@@ -349,6 +357,7 @@ func (x *c17MgrRun) apply1(op c17MOp) {
 		deadline := time.Now().Add(c17Watchdog)
 		for !x.queuesQuiet() {
 			if time.Now().After(deadline) {
+				c17WatchdogHits++
 				x.violation("pool-cooldown-not-released", "an expired cool-down entry of a manager pool was not released")
 				break
 			}
@@ -431,8 +440,8 @@ func (x *c17MgrRun) obs() string {
 		zv.N(m.initialHeight.Load()), zv.N(m.storeFrom.Load()))
 }
 
-func (x *c17MgrRun) finish(g *zv.Group, nontrivial bool) {
-	if x.unstable {
+func (x *c17MgrRun) finish(gs *c17Groups, idx int, nontrivial bool) {
+	if x.unstable || x.aborted {
 		x.close()
 		return
 	}
@@ -444,7 +453,7 @@ func (x *c17MgrRun) finish(g *zv.Group, nontrivial bool) {
 	if nontrivial {
 		key = "nt"
 	}
-	g.Case(term, c17MCase{Seq: x.seq, Events: x.events, Outs: x.outs, Final: final}, key)
+	gs.get(idx).Case(term, c17MCase{Seq: x.seq, Events: x.events, Outs: x.outs, Final: final}, key)
 }
 
 func (x *c17MgrRun) genOp(rng *zv.Rand, heights []int) c17MOp {
@@ -505,7 +514,9 @@ func c17MgrScripted() []c17MSeq {
 	up := func(p int, added bool) c17MOp { return c17MOp{Op: "update", P: p, Added: added} }
 	age := func(h int) c17MOp { return c17MOp{Op: "age", H: h} }
 	gc := c17MOp{Op: "gc"}
-	mk := func(enable bool, ops ...c17MOp) c17MSeq { return c17MSeq{Kind: "mgr-seq", Enable: enable, NP: 5, NH: 4, Ops: ops} }
+	mk := func(enable bool, ops ...c17MOp) c17MSeq {
+		return c17MSeq{Kind: "mgr-seq", Enable: enable, NP: 5, NH: 4, Ops: ops}
+	}
 	return []c17MSeq{
 		// announce H0 (unconfirmed), get blacklisted through a stale hash H1, header confirms H0, ask for another hash
 		mk(true, hd(2, 5), v(0, 0, 6), v(0, 1, 7), age(1), gc, hd(0, 6), pr(3, 8)),
@@ -538,7 +549,7 @@ func c17Manager(t *testing.T, r *zv.Run) {
 				break
 			}
 		}
-		x.finish(gs.get(0), true)
+		x.finish(gs, 0, true)
 		return
 	}
 	for i, seq := range c17MgrScripted() {
@@ -548,11 +559,11 @@ func c17Manager(t *testing.T, r *zv.Run) {
 				break
 			}
 		}
-		x.finish(gs.get(i), true)
+		x.finish(gs, i, true)
 		r.Count("mgr-seq", "scripted")
 	}
 	n := r.N(400, 6000)
-	for i := 0; i < n; i++ {
+	for i := 0; i < n && c17WatchdogHits < 3; i++ {
 		cr := rng.Fork(uint64(i))
 		seq := c17MSeq{Kind: "mgr-seq", Enable: cr.Chance(70), NP: 5, NH: 4}
 		x := c17NewMgrRun(t, r, seq)
@@ -574,7 +585,7 @@ func c17Manager(t *testing.T, r *zv.Run) {
 				break
 			}
 		}
-		x.finish(gs.get(i), c17MgrNontrivial(x.seq.Ops, seq.Enable))
+		x.finish(gs, i, c17MgrNontrivial(x.seq.Ops, seq.Enable))
 		r.Count("mgr-seq", "random")
 	}
 }
